@@ -162,9 +162,69 @@ def run_case(sh, s, d, case):
             {'seed': s, 'kind': kind, 'clock': mode, 'trace': dr.trace})
 
 
+def crafted_extension_keys(sh, d, case):
+    """extension keys named like the undo log's own keys: iteration, history and undo log must still report the transaction's
+    id, user, description, time and size (and the other extension keys), and the id the undo log reports must undo it"""
+    import base64
+    from zv import recfs, objs
+    from ZODB.Connection import TransactionMetaData
+    from ZODB.utils import z64
+    from persistent.TimeStamp import TimeStamp
+    FSM = recfs.install()
+    recfs.LOG.enabled = False
+    for variant in (case.get('variant'),) if case.get('variant') else ('file', 'demo-file'):
+        path = os.path.join(d, variant + '.fs')
+        st = FSM.FileStorage(path)
+        if variant == 'demo-file':
+            import ZODB.DemoStorage
+            st = ZODB.DemoStorage.DemoStorage(changes=st)
+        c2 = dict(case, variant=variant)
+        oid = st.new_oid()
+        tids = []
+        for n, ext in enumerate([{}, {'id': 'bogus', 'description': 'ext-desc', 'user_name': 'ext-user', 'time': 0, 'size': -1, 'extra': 1}]):
+            t = TransactionMetaData(b'real user', b'real description %d' % n, ext)
+            st.tpc_begin(t)
+            st.store(oid, tids[-1] if tids else z64, objs.cell_record('v%d' % n), '', t)
+            st.tpc_vote(t)
+            tids.append(st.tpc_finish(t))
+        tid = tids[-1]
+        want = {'id': base64.encodebytes(tid).rstrip(), 'user_name': b'real user', 'description': b'real description 1', 'extra': 1}
+        for reopen in (False, True):
+            if reopen:
+                st.close()
+                st = FSM.FileStorage(path)
+                if variant == 'demo-file':
+                    st = ZODB.DemoStorage.DemoStorage(changes=st)
+            sh.count('undo_log_entries_with_extension_keys_named_like_its_own')
+            entry = st.undoLog(0, 1)[0]
+            got = {k: entry.get(k) for k in want}
+            if got != want or abs(entry.get('time', 0) - TimeStamp(tid).timeTime()) > 1e-3 or not entry.get('size', 0) > 0:
+                sh.violation('c04:%s:undoLog-reports-extension-values-in-place-of-the-transactions-own' % variant,
+                             {'got': {k: repr(v) for k, v in entry.items()}, 'reopen': reopen}, c2)
+                return
+            h = st.history(oid, 1)[0]
+            if (h['tid'], h['user_name'], h['description']) != (tid, b'real user', b'real description 1'):
+                sh.violation('c04:%s:history-reports-extension-values-in-place-of-the-transactions-own' % variant, {'got': repr(h)[:200]}, c2)
+                return
+            it = st.iterator(tid)
+            tx = next(iter(it))
+            if (tx.tid, tx.user, tx.description, tx.extension.get('id')) != (tid, b'real user', b'real description 1', 'bogus'):
+                sh.violation('c04:%s:iterator-metadata-differs' % variant, {}, c2)
+                return
+            if hasattr(it, 'close'):
+                it.close()
+            if not st.undoInfo(0, 5, {'description': b'real description 1'}):
+                sh.violation('c04:%s:undoInfo-does-not-find-the-transaction-by-its-description' % variant, {'reopen': reopen}, c2)
+                return
+        st.close()
+
+
 def run_shard(params):
     logging.disable(logging.CRITICAL)
     sh = Shard(params)
+    if params.get('shard', 0) in (0, 1):
+        cc = {'crafted': 'extension-keys'}
+        guarded(sh, 'c04', cc, lambda: crafted_extension_keys(sh, sh.fresh_dir('c04x'), cc))
     for i in case_indices(params):
         if not sh.time_left():
             break
@@ -182,5 +242,8 @@ def run_shard(params):
 def replay(case, scratch):
     logging.disable(logging.CRITICAL)
     sh = Shard({'scratch': scratch})
+    if case.get('crafted') == 'extension-keys':
+        guarded(sh, 'c04', case, lambda: crafted_extension_keys(sh, sh.fresh_dir('c04x'), case))
+        return sh.violations
     guarded(sh, 'c04', case, lambda: run_case(sh, case['seed'], sh.fresh_dir('c04'), case))
     return sh.violations
